@@ -1,4 +1,4 @@
-(** C14 (stretch) — model of [MeshStripifier] (src/draco/mesh/mesh_stripifier.{h,cc}), read line by line:
+(** C14 (strip clause) — model of [MeshStripifier] (src/draco/mesh/mesh_stripifier.{h,cc}), read line by line:
     [GetOppositeCorner], [GenerateStripsFromCorner], [FindLongestStripFromFace], [StoreStrip],
     [GenerateTriangleStripsWithPrimitiveRestart], [GenerateTriangleStripsWithDegenerateTriangles].
 
@@ -238,7 +238,8 @@ Definition strips_restart (faces : list face) (opp : list (option nat)) : option
 Definition strips_degenerate (faces : list face) (opp : list (option nat)) : option (list nat) :=
   gen_degenerate faces opp (length faces) 0 (repeat false (length faces)) 0 0 0.
 
-(** the hypothesis of [strips_store_sound_partial], evaluated on a concrete input *)
+(** every stored strip crosses only edges that pass the seam test (a consequence of [opp_wf], see
+    Proofs/Strips_proofs.v [gen_plan_spec]; kept as an executable cross-check) *)
 Definition strips_walks_ok (faces : list face) (opp : list (option nat)) : bool :=
   match gen_plan faces opp (length faces) 0 (repeat false (length faces)) with
   | None => false
@@ -256,3 +257,26 @@ Fixpoint decode_strip (j : nat) (s : list nat) : list face :=
     end
   | [] => []
   end.
+
+(* ---- decoding the two output streams (specification side of C14's strip clause) ---- *)
+(** primitive-restart stream: split at the restart index ([None]), every run is one strip *)
+Fixpoint split_restart (s : list (option nat)) : list nat * list (list nat) :=
+  match s with
+  | [] => ([], [])
+  | None :: r => let '(c, rs) := split_restart r in ([], c :: rs)
+  | Some x :: r => let '(c, rs) := split_restart r in (x :: c, rs)
+  end.
+Definition restart_runs (s : list (option nat)) : list (list nat) := let '(c, rs) := split_restart s in c :: rs.
+Definition decode_restart (s : list (option nat)) : list face := flat_map (decode_strip 0) (restart_runs s).
+(** degenerate-triangle stream: ONE strip; triangles with two equal indices are dropped (zero area) *)
+Definition tri_nondeg (f : face) : bool :=
+  let '(a, b, c) := f in negb (Nat.eqb a b) && negb (Nat.eqb a c) && negb (Nat.eqb b c).
+Definition decode_degenerate (s : list nat) : list face := filter tri_nondeg (decode_strip 0 s).
+(** the well-formedness the strip theorems need of the opposite-corner table (symmetric pairing of existing
+    corners, C13 clause 1a), as a computable test *)
+Definition opp_wf_b (faces : list face) (opp : list (option nat)) : bool :=
+  forallb (fun a => match nth a opp None with
+                    | None => true
+                    | Some b => Nat.ltb b (3 * length faces) &&
+                                match nth b opp None with Some a' => Nat.eqb a' a | None => false end
+                    end) (seq 0 (length opp)).
